@@ -50,7 +50,7 @@ func runGcontra(c *Ctx) {
 			}
 			return cl
 		}
-		c.Walk("R19", &core.Config{Follow: func(*types.Func) bool { return false }}, core.Entry{Decl: d}, func(p *core.Path) {
+		c.Walk("R19", &core.Config{Follow: func(*types.Func) bool { return false }, SharedFacts: true}, core.Entry{Decl: d}, func(p *core.Path) {
 			g := prepare(c, p)
 			// ---- R19
 			for _, ev := range p.Events {
